@@ -150,7 +150,7 @@ func checkTree(t *proto.Tree, seen map[uint64]string) (*treeStat, *model.Diff) {
 	if len(t.LookupGhost) > 0 {
 		return st, &model.Diff{Sig: pre + "tombstoned-key-found-by-lookup", What: fmt.Sprintf("%s: keys %v", t.Table, t.LookupGhost)}
 	}
-	if t.ScanLeft != nil || len(live) > 0 {
+	if !t.NoLookups {
 		if len(t.ScanLeft) != len(live) {
 			return st, &model.Diff{Sig: pre + "reverse-scan-differs", What: fmt.Sprintf("%s: reverse scan saw %d keys, tree holds %d live keys", t.Table, len(t.ScanLeft), len(live))}
 		}
